@@ -344,6 +344,14 @@ def cases(rng, ctx):
         if i % 7 == 0:
             h, mi, s = rng.choice([(0, 0, 0), (23, 59, 59), (12, 0, 0), (0, 0, 1)])
         add({'kind': 'iso', 'y': y, 'm': m, 'd': d, 'h': h, 'mi': mi, 's': s, 'form': form})
+        if form in (1, 2) and i % 3 == 0 and 1900 < y < 9999:
+            # the same date-time with a fraction of a second: written after the seconds of the ISO text ('frac'), or carried as
+            # microseconds by a datetime the host hands over ('us'): the components are the ones written, no rounding up
+            fr = rng.choice(['.5', '.750', '.600', '.999', '.999999', '.499', '.001', '.500000'])
+            if rng.random() < 0.5:
+                add({'kind': 'iso', 'y': y, 'm': m, 'd': d, 'h': h, 'mi': mi, 's': s, 'form': form, 'frac': fr})
+            else:
+                add({'kind': 'iso', 'y': y, 'm': m, 'd': d, 'h': h, 'mi': mi, 's': s, 'form': form, 'us': int(float('0' + fr) * 1000000)})
         if form in (1, 3) and i % 2 == 0 and 1900 < y < 9999:
             # the same ISO text with a UTC offset (Z, +hh:mm, -hh:mm): the components read are the ones written - a time of
             # day in its own zone - and the weekday is that of the written date (oracle only)
@@ -565,7 +573,7 @@ def iso_text(c):
         return base
     sep = 'T' if f in (1, 3) else ' '
     if f in (1, 2):
-        return base + sep + '%02d:%02d:%02d' % (c['h'], c['mi'], c['s']) + c.get('off', '')
+        return base + sep + '%02d:%02d:%02d' % (c['h'], c['mi'], c['s']) + c.get('frac', '') + c.get('off', '')
     return base + sep + '%02d:%02d' % (c['h'], c['mi']) + c.get('off', '')
 
 
@@ -587,8 +595,8 @@ def request(c):
     if k == 'hms':
         return _ev(F_HMS, {'hh': c['h'], 'mm': c['mi'], 'ss': c['s']})
     if k == 'iso':
-        if c.get('off'):
-            return None          # text with a UTC offset: oracle only
+        if c.get('off') or c.get('frac') or c.get('us') is not None:
+            return None          # text with a UTC offset or a fraction of a second, a host datetime with microseconds: oracle only
         return _ev(F_ISO, {'tx': iso_text(c)})
     if k == 'serial':
         return _ev(F_SER, {'sn': c['s']})
@@ -654,6 +662,8 @@ def _impl(c):
         return [call('HOUR', t), call('MINUTE', t), call('SECOND', t)]
     if k == 'iso':
         t = iso_text(c)
+        if c.get('us') is not None:
+            t = datetime.datetime(c['y'], c['m'], c['d'], c['h'], c['mi'], c['s'], c['us'])
         res = [call(f, t) for f in ('YEAR', 'MONTH', 'DAY', 'HOUR', 'MINUTE', 'SECOND')]
         if c.get('off'):
             res += [call('WEEKDAY', t, ty) for ty in (1, 2, 3)]
